@@ -222,11 +222,36 @@ pub struct FaultCase {
 }
 
 /// `k` faults (k = 0: the fault-free host) at every admissible position
+/// valid trait instructions for a further counterpart, placed before or after the host's own ("whatever valid
+/// instructions surround it")
+const NOISE: &[&str] = &["into(W)", "from(W)", "owned_into(W| return Default::default())", "try_from_ref(W, Er)", "ref_into_existing(W)"];
+
 pub fn gen(ctx: &mut Ctx, k: usize) -> Option<FaultCase> {
     let host_name = HOSTS[ctx.choose(HOSTS.len())];
     let mut it = host(host_name);
+    // surrounding valid instructions
+    let noise = ctx.choose(1 + 2 * NOISE.len());
+    let mut noise_tag = String::from("noise=none");
+    if noise > 0 {
+        let (ni, first) = ((noise - 1) / 2, (noise - 1) % 2 == 0);
+        if it.is_enum() && NOISE[ni].contains("existing") {
+            return ctx.reject();
+        }
+        let body = if host_name == "enum-prim" { NOISE[ni].replace("W)", "W| _ => panic!())").replace("W, Er)", "W, Er| _ => panic!())") } else { NOISE[ni].to_string() };
+        if host_name == "enum-prim" && body.contains("return") {
+            return ctx.reject();
+        }
+        let ins = mk_instr(&body);
+        if first {
+            it.attrs.insert(0, ins);
+        } else {
+            it.attrs.push(ins);
+        }
+        noise_tag = format!("noise={}@{}", NOISE[ni], if first { "first" } else { "last" });
+    }
+    let base_with_noise = it.clone();
     let mut faults = vec![];
-    let mut tags = vec![format!("host={}", host_name), format!("faults={}", k)];
+    let mut tags = vec![format!("host={}", host_name), format!("faults={}", k), noise_tag];
     let mut last = 0;
     for _ in 0..k {
         // faults are chosen in non-decreasing catalogue order (a pair is a set), positions independently
@@ -239,8 +264,7 @@ pub fn gen(ctx: &mut Ctx, k: usize) -> Option<FaultCase> {
         if faults.iter().any(|(g, _): &(&Fault, usize)| g.id == f.id) {
             return ctx.reject();
         }
-        let base = host(host_name);
-        let np = positions(&base, f);
+        let np = positions(&base_with_noise, f);
         let pos = ctx.choose(np);
         if f.id == "member-repeat-unterminated" && pos == 0 {
             return ctx.reject(); // the unterminated block starts on member 0; a second repeat on the same member is no conflict
